@@ -40,7 +40,11 @@ Record mlink := ML {
   m_rep : option Z;       (* repaired at T, rejoin still owed *)
   m_envok : bool;         (* the environment kept its promise since T *)
   m_await : bool;         (* a REG2 was sent and not yet answered *)
-  m_due : Z }.            (* latest time for the next housekeeping tick *)
+  m_due : Z;              (* latest time for the next housekeeping tick *)
+  m_heard : option Z;
+  m_failrec : bool }.     (* the monitor's OWN record: a socket re-creation was attempted while the environment
+                             made it fail (bind refused / no I/O entry) since the last REG3 *)   (* the monitor's OWN record of when this link last heard from the receiver
+                             (an inbound datagram, a keepalive echo, a REG3) since its last teardown *)
 
 Definition gen_changed (p q : lobs) : bool := negb (b_gen q =? b_gen p).
 Definition torn_down (p q : lobs) : bool := gen_changed p q || (b_conn p && negb (b_conn q)).
@@ -48,6 +52,11 @@ Definition torn_down (p q : lobs) : bool := gen_changed p q || (b_conn p && negb
 (** "has heard nothing for the configured timeout" at time [now] *)
 Definition heard_nothing (p : lobs) (now cfg : Z) : bool :=
   if b_lr p =? -1 then negb (b_conn p) else cfg <=? now - b_lr p.
+
+(** ... judged by the monitor's own record of inbound traffic, not by the stamp the code keeps: a
+    connected link that the history shows was heard from within the timeout must not be torn down *)
+Definition heard_nothing_mon (m : mlink) (now cfg : Z) : bool :=
+  match m_heard m with Some h => cfg <=? now - h | None => true end.
 
 Definition op_on (o : op) : option nat :=
   match o with
@@ -63,7 +72,7 @@ Definition c_teardown (o : op) (i : nat) (m : mlink) (q : lobs) (cfg : Z) : bool
   let p := m_prev m in
   if torn_down p q then
     match o with
-    | OTick now _ _ _ => heard_nothing p now cfg
+    | OTick now _ _ _ => heard_nothing p now cfg && (negb (b_conn p) || heard_nothing_mon m now cfg)
     | OData _ _ _ _ _ => negb (gen_changed p q) && m_shut m
     | ORegErr j _ => Nat.eqb j i && negb (gen_changed p q)
     | _ => false
@@ -121,7 +130,7 @@ Definition env_step (o : op) (i : nat) (m : mlink) (q : lobs) (w : list Z) : opt
   match o with
   | ORepair _ now =>
     if hit then
-      if negb (b_conn q) && (b_fail q =? 0) && m_bind m && m_io m && negb (m_shut m)
+      if negb (b_conn q) && negb (m_failrec m) && m_bind m && m_io m && negb (m_shut m)
       then (Some now, true, false, now + T_TICK) else (None, false, false, 0)
     else (m_rep m, m_envok m, m_await m, m_due m)
   | OTick now _ _ _ =>
@@ -158,4 +167,16 @@ Definition mon_link (o : op) (cfg : Z) (probing : bool) (i : nat) (m : mlink) (q
   let shut := if gen_changed p q then false else match o with OShut _ => hit || m_shut m | _ => m_shut m end in
   let bind := match o with OSetBind _ b => if hit then b else m_bind m | _ => m_bind m end in
   let io := match o with ODropIo _ => if hit then false else m_io m | _ => m_io m end in
-  (code, ML q (m_ever m || b_conn q) torn shut bind io (if b_conn q then None else rep) envok await due).
+  let heard := if torn_down p q then None
+               else match o with
+                    | OKeepalive _ now _ | OInbound _ now _ | OReg3 _ now => if hit then Some now else m_heard m
+                    | ORegErr _ _ => if hit then None else m_heard m
+                    | _ => m_heard m
+                    end in
+  let failrec := match o with
+                 | OTick now _ _ _ =>
+                   if (b_last q =? now) && negb (b_last p =? now) && negb (m_bind m && m_io m) then true else m_failrec m
+                 | OReg3 _ _ => if hit then false else m_failrec m
+                 | _ => m_failrec m
+                 end in
+  (code, ML q (m_ever m || b_conn q) torn shut bind io (if b_conn q then None else rep) envok await due heard failrec).
